@@ -28,7 +28,7 @@ EXTENDS Sequences, Naturals, FiniteSets
 Digits      == {"0", "1", "2", "3"}
 Letters     == {"a", "b", "c", "g", "m", "s", "h", "e", "d", "k", "p", "t"}
 NumToks     == {"1.5", "-2", "0.25", "1e3", "NaN", "Inf", "-Inf", "0.0", "-0.5", "1e999", "x1"}
-Words       == {"low", "normal", "info", "error", "warning", "success"}
+Words       == {"low", "normal", "info", "error", "warning", "success", "host"}
 Esc         == "\\n"                       \* the two bytes backslash, n
 Punct       == {".", "-", "_"}
 Removed     == {"!", "|", "@", "#", ",", "{", "}"}   \* bytes a metric name drops ("!" = any other byte)
@@ -38,7 +38,7 @@ Tokens      == Digits \cup Letters \cup NumToks \cup Words \cup {Esc} \cup Punct
 
 ByteLen(t) == CASE t \in {"1.5", "1e3", "NaN", "Inf", "0.0", "low"} -> 3
                 [] t \in {"-2", "x1", Esc}                            -> 2
-                [] t \in {"0.25", "-Inf", "-0.5", "info"}             -> 4
+                [] t \in {"0.25", "-Inf", "-0.5", "info", "host"}     -> 4
                 [] t \in {"1e999", "error"}                           -> 5
                 [] t = "normal"                                       -> 6
                 [] t \in {"warning", "success"}                       -> 7
